@@ -373,7 +373,7 @@ pub fn c11_leg(a: &Args, rep: &mut Report, out_dir: &std::path::Path) -> Vec<Str
     let backend = backend_name();
     let mut lines: Vec<String> = vec![];
     // predicate sign sequences, in chunks
-    let nrandom = ncases(a, 40_000, 1_000_000);
+    let nrandom = ncases(a, 200_000, 2_000_000);
     let mut chunk = Digest::new();
     let mut in_chunk = 0u64;
     let mut idx = 0u64;
@@ -391,7 +391,7 @@ pub fn c11_leg(a: &Args, rep: &mut Report, out_dir: &std::path::Path) -> Vec<Str
     });
     lines.push(format!("tuples {:>10} {}", idx, chunk.hex()));
     // tie-rich tessellations
-    let nb = ncases(a, 300, 3000);
+    let nb = ncases(a, 600, 6000);
     let szs = [2usize, 4, 8, 13, 27, 50, 100];
     let results: Vec<std::sync::Mutex<String>> = (0..nb).map(|_| std::sync::Mutex::new(String::new())).collect();
     run_parallel(rep, nb, budget(a, 200., 1200.), |k, rep| {
